@@ -5,6 +5,8 @@ package main
 // obligations). See DESIGN.md §3.4.
 
 import (
+	"os"
+	"runtime/debug"
 	"fmt"
 	"go/token"
 	"go/types"
@@ -134,6 +136,7 @@ type VC struct {
 	callGhosts    map[string]*callGhost
 	unreach       map[*ssa.MakeSlice]bool
 	heapProbe     map[string]bool
+	rangeQs       []rangeQ
 	mapRangeCache map[*ssa.Range]bool
 	specHeaps     map[*types.Func][]string
 	specProbing   map[*types.Func]bool
@@ -157,6 +160,9 @@ const maxLen = "281474976710656"
 type unsupported struct{ msg string }
 
 func (vc *VC) fail(format string, args ...interface{}) {
+	if os.Getenv("GVC_STACK") != "" {
+		debug.PrintStack()
+	}
 	panic(unsupported{fmt.Sprintf(format, args...)})
 }
 
@@ -227,7 +233,11 @@ func (vc *VC) oblige(class, detail string, guard, cond Term, pos token.Pos, cons
 	if !pos.IsValid() {
 		pos = vc.curPos
 	}
-	vc.lastEv = &Event{Oblig: true, Name: name, Class: class, Guard: guard, Cond: cond, Pos: pos, Construct: construct, Quant: vc.quantCtx}
+	goal := cond
+	if class == "invariant-step" || class == "invariant-entry" || class == "ensures" {
+		goal = vc.skolemizeGoal(guard, cond)
+	}
+	vc.lastEv = &Event{Oblig: true, Name: name, Class: class, Guard: guard, Cond: goal, Pos: pos, Construct: construct, Quant: vc.quantCtx}
 	vc.events = append(vc.events, vc.lastEv)
 	// after the check, execution continues only if it held (a wrapped integer result does not stop
 	// the program, so an overflow obligation constrains nothing afterwards)
@@ -443,6 +453,34 @@ func (vc *VC) globalGet(s *State, g *ssa.Global) Term {
 			if dt, ok := vc.P.globalInitDynType(g); ok {
 				vc.addAssume("true", app("(_ is "+vc.S.boxOf(dt).ctor+")", c))
 				vc.assume("package variable " + g.Pkg.Pkg.Name() + "." + g.Name() + " is never reassigned (checked by SSA scan) and holds the value of its composite-literal initialiser (dynamic type " + dt.String() + ")")
+			}
+		}
+		if first {
+			// a never-reassigned package variable initialised by a call F(constants) of a function under
+			// contract holds a value that satisfies F's postconditions (when F's preconditions hold)
+			if fo, cargs, info, ok := vc.P.globalInitCall(g); ok {
+				if fn := vc.P.prog.FuncValue(fo); fn != nil {
+					if fi := vc.P.contractFor(fn); fi != nil && fi.missing == "" && len(fi.results) == 1 && len(fi.params) == len(cargs) {
+						ex := &exprTr{vc: vc, info: info}
+						env := map[string]Val{}
+						for i, a := range cargs {
+							env[fi.params[i]] = ex.constVal(fi.ptypes[i], info.Types[a].Value)
+						}
+						renv := map[string]Val{fi.results[0]: {t: c, typ: t}}
+						var pres, posts []Term
+						for _, cl := range fi.fc.Requires {
+							pres = append(pres, vc.clauseTerm(fi, cl, env, nil, s, s))
+						}
+						for _, cl := range fi.fc.Ensures {
+							posts = append(posts, vc.clauseTerm(fi, cl, env, renv, s, s))
+						}
+						if len(posts) > 0 {
+							vc.usedCallees[fi] = true
+							vc.addAssume("true", implies(and(pres...), and(posts...)))
+							vc.assume("package variable " + g.Pkg.Pkg.Name() + "." + g.Name() + " is never reassigned (checked by SSA scan) and holds the result of its initialiser " + fi.qname() + "(constants), which satisfies that function's contract")
+						}
+					}
+				}
 			}
 		}
 		if first {
